@@ -53,6 +53,18 @@ func scriptString(s []action) string {
 
 func isFailure(a action) bool { return a >= aF }
 
+// usable reports whether a is a distinct action for a read buffer of n bytes: a
+// delivery larger than the buffer behaves exactly like one of the buffer's size.
+func usable(a action, n int) bool {
+	switch a {
+	case aD2, aP2:
+		return n >= 2
+	case aD3, aP3:
+		return n >= 3
+	}
+	return true
+}
+
 var errScripted = errors.New("scripted transient failure")
 
 type giveUp struct{}
@@ -388,6 +400,9 @@ func (ex *retryExplorer) explore(script []action, cfg retryCfg, maxLen int) {
 		if a == aO && len(script) > 0 && !isFailure(script[len(script)-1]) {
 			continue // a reader is open: the next event cannot be an OpenAt
 		}
+		if !usable(a, cfg.bufSize) {
+			continue
+		}
 		ex.explore(append(append([]action(nil), script...), a), cfg, maxLen)
 	}
 }
@@ -410,7 +425,7 @@ func runRetry(r *ev.Run, workers int) *retryStats {
 	exec.VerifC15SetRetryPolicy(zp)
 	st.budget = B
 	st.maxLen = B + 2
-	cfgs := []retryCfg{{false, 4}, {true, 4}, {false, 1}}
+	cfgs := []retryCfg{{false, 4}, {true, 4}, {false, 1}, {true, 1}}
 	if r.Thorough() {
 		cfgs = []retryCfg{{false, 4}, {true, 4}, {false, 1}, {true, 1}, {false, 2}, {true, 2}, {false, 8}, {true, 8}}
 	}
@@ -427,9 +442,12 @@ func runRetry(r *ev.Run, workers int) *retryStats {
 	for _, c := range cfgs {
 		ex.explore(nil, c, 0)
 		for a := action(0); a < nActions; a++ {
+			if !usable(a, c.bufSize) {
+				continue
+			}
 			ex.explore([]action{a}, c, 1)
 			for b := action(0); b < nActions; b++ {
-				if b == aO && !isFailure(a) {
+				if b == aO && !isFailure(a) || !usable(b, c.bufSize) {
 					continue
 				}
 				jobs = append(jobs, job{c, []action{a, b}})
